@@ -216,7 +216,14 @@ def audit_axioms(pid, module, theorems):
     os.makedirs(os.path.dirname(path), exist_ok=True)
     with open(path, "w") as f:
         f.write(src)
-    rc, out = sh(["lake", "env", "lean", path], cwd=LEAN, timeout=600)
+    os.makedirs(LOCKDIR, exist_ok=True)
+    with open(os.path.join(LOCKDIR, "lake.lock"), "w") as lk:
+        # a concurrent `lake build` of another check may be rewriting .olean files: read them under the same lock
+        fcntl.flock(lk, fcntl.LOCK_EX)
+        try:
+            rc, out = sh(["lake", "env", "lean", path], cwd=LEAN, timeout=600)
+        finally:
+            fcntl.flock(lk, fcntl.LOCK_UN)
     axioms = {}
     ok = rc == 0
     cur = None
